@@ -51,6 +51,8 @@ type Result struct {
 	StopReturned  bool     `json:"stop_returned"`
 	StopMs        int64    `json:"stop_ms"` // Stop latency from the moment nothing but in-flight work remains
 	Quiescent     bool     `json:"quiescent"`
+	TimerWait     bool     `json:"timer_wait"` // Stop not returned, relay quiescent: only the NAT timer can end the wait
+	BusyPolls     int      `json:"busy_polls"` // inspections past the limit that found runnable (starved) relay goroutines
 	WaitDump      string   `json:"wait_dump,omitempty"`
 	G0, G1, G2    int      `json:"-"`
 	GBase         int      `json:"g_base"`
@@ -442,7 +444,11 @@ func runChild(sc Scenario) (res Result) {
 	}
 
 	// stop calls cancel (Manager.Run then calls Stop on every service) and measures until Run returns.
-	// `from` is the instant from which only in-flight work remains.
+	// `from` is the instant from which only in-flight work remains.  From natTimeout/2 (at most 4 s) after that
+	// instant the relay's goroutines are inspected every 250 ms while Stop has not returned: if Stop is parked in
+	// wg.Wait, a downlink is parked in the net poller and no relay goroutine is runnable or running, no in-flight work
+	// is left and only the NAT timer can end the wait (TimerWait).  Goroutines that are runnable but starved (loaded
+	// machine) are in-flight work: the run goes on until Stop returns, the relay becomes quiescent, or maxWait passes.
 	stop := func(from func() time.Time) {
 		cancel()
 		t0 := from()
@@ -451,14 +457,41 @@ func runChild(sc Scenario) (res Result) {
 		select {
 		case <-done:
 		case <-wd.C:
-			// Stop has not returned although nothing but in-flight work was left half a NAT timeout ago.
-			d := stacks()
-			res.WaitDump, res.Quiescent = classifyDump(d)
-			select {
-			case <-done:
-			case <-time.After(time.Until(t0.Add(maxWait))):
-				res.StopMs = time.Since(t0).Milliseconds()
-				return
+			for !res.StopReturned {
+				d := stacks()
+				dump, q := classifyDump(d)
+				if q {
+					// look twice: a goroutine woken between two states is not quiescence
+					time.Sleep(100 * time.Millisecond)
+					select {
+					case <-done:
+						res.StopReturned = true
+						continue
+					default:
+					}
+					_, q = classifyDump(stacks())
+				}
+				if q {
+					res.WaitDump, res.Quiescent, res.TimerWait = dump, true, true
+					select {
+					case <-done:
+						res.StopReturned = true
+					case <-time.After(time.Until(t0.Add(maxWait))):
+					}
+					res.StopMs = time.Since(t0).Milliseconds()
+					return
+				}
+				res.WaitDump = dump
+				res.BusyPolls++
+				if time.Since(t0) > maxWait+10*time.Second {
+					res.StopMs = time.Since(t0).Milliseconds()
+					return
+				}
+				select {
+				case <-done:
+					res.StopReturned = true
+				case <-time.After(250 * time.Millisecond):
+				}
 			}
 		}
 		res.StopReturned = true
